@@ -400,6 +400,10 @@ func checkConv(p *Prog, r *Report, pkg, prop string) {
 	}
 	ruleCommandsOnlyGrow(p, r, pkg)
 	ruleStickyState(p, r, prop, map[string]bool{pkg: true}, map[string]int{"panos": 1, "nsx": 1, "linux": 2}[pkg])
+	ruleCutsetMisuse(p, r, map[string]bool{pkg: true})
+	if pkg == "panos" || pkg == "nsx" {
+		ruleComparatorsComplete(p, r, map[string]bool{pkg: true}, map[string]int{"panos": 6, "nsx": 2}[pkg])
+	}
 	if pkg == "panos" {
 		rulePanosEscaped(p, r)
 		r.rule("R08.e", "PAN-OS commands are well-formed URLs (see C08).")
